@@ -30,6 +30,10 @@ pub fn set_decision_tape(bytes: &[u8]) {
     TAPE.with(|t| *t.borrow_mut() = Some(bytes.to_vec()));
 }
 
+pub fn clear_decision_tape() {
+    TAPE.with(|t| *t.borrow_mut() = None);
+}
+
 impl Rng {
     pub fn new(seed: u64, stream: u64) -> Self {
         let s = splitmix(splitmix(seed) ^ splitmix(stream.wrapping_mul(0xd1342543de82ef95).wrapping_add(1)));
